@@ -39,9 +39,62 @@ def repo_root() -> str:
   return os.path.abspath(os.environ.get('VERIF_REPO') or '/repo')
 
 
+_INSTALLED = []
+
+
+def load_module_set(names, install):
+  """The named methodology modules, re-executed from source.
+
+  Process-global state of the code under test (class attributes, module
+  globals, functools caches) must not survive from one simulated run to the
+  next inside a worker interpreter, nor leak between the object under test and
+  the reference: one module set is one simulated process.  All
+  matched_markets.methodology modules are dropped from sys.modules and the
+  named ones imported afresh (which re-imports what they depend on).  With
+  install=False the previous sys.modules entries are put back afterwards, so
+  the new set lives on only through the returned module objects.
+  """
+  install_repo_path()
+  import importlib  # pylint: disable=g-import-not-at-top
+  prefix = 'matched_markets.methodology.'
+  pkg = importlib.import_module('matched_markets.methodology')
+
+  def purge():
+    mods = {n: m for n, m in sys.modules.items() if n.startswith(prefix)}
+    for n in mods:
+      del sys.modules[n]
+    attrs = {a: v for a, v in vars(pkg).items() if not a.startswith('__')}
+    for a in attrs:
+      delattr(pkg, a)
+    return mods, attrs
+
+  prev_mods, prev_attrs = purge()
+  try:
+    out = [importlib.import_module(prefix + n) for n in names]
+  finally:
+    if not install:
+      purge()
+      sys.modules.update(prev_mods)
+      for a, v in prev_attrs.items():
+        setattr(pkg, a, v)
+  return out
+
+
+def fresh_modules(*names):
+  """A new module set for the object under test of this run (installed)."""
+  return load_module_set(names, install=True)
+
+
+def reference_modules(*names):
+  """A new, private module set for a reference evaluation (not installed)."""
+  return load_module_set(names, install=False)
+
+
 def install_repo_path():
   """Make `import matched_markets` resolve to the working tree under test."""
   root = repo_root()
+  if _INSTALLED == [root]:
+    return root
   if sys.path[0] != root:
     sys.path.insert(0, root)
   for name in list(sys.modules):
@@ -55,6 +108,7 @@ def install_repo_path():
   if not f.startswith(root + os.sep):
     raise RuntimeError('matched_markets resolved to %s, not under %s' %
                        (f, root))
+  _INSTALLED[:] = [root]
   return root
 
 
